@@ -70,7 +70,33 @@ func c04Setup() *c04Fix {
 		}
 		tx.Outputs = append(tx.Outputs, &common.Output{Type: common.OutputTypeScript, Amount: common.NewIntegerFromString("10"), Keys: ks, Mask: f.mask, Script: common.NewThresholdScript(1)})
 		ver := w.sign(tx)
+		// as delivered by a peer or client: decoded from the wire, so equal key
+		// values sit behind distinct pointers
+		dec, err := common.UnmarshalVersionedTransaction(ver.Marshal())
+		if err != nil {
+			panic(err)
+		}
+		ver = dec
 		f.txs = append(f.txs, &c04Tx{name: s.name, ver: ver, hash: ver.PayloadHash(), keys: s.keys})
+	}
+	// R: a node-remove transaction (keyed 0xa6 output, spends genesis node 6's
+	// accept output) whose output key is k0 — the non-script keyed output type
+	{
+		_, _, gtxs, err := l.Net.Genesis.BuildSnapshots()
+		if err != nil {
+			panic(err)
+		}
+		accept := gtxs[6]
+		tx := common.NewTransactionV5(common.XINAssetId)
+		tx.AddInput(accept.PayloadHash(), 0)
+		tx.Outputs = append(tx.Outputs, &common.Output{Type: common.OutputTypeNodeRemove, Amount: common.KernelNodePledgeAmount, Keys: []*crypto.Key{f.pool[0]}, Mask: f.mask, Script: common.NewThresholdScript(1)})
+		tx.Extra = append([]byte{}, accept.Extra...)
+		ver := tx.AsVersioned()
+		dec, err := common.UnmarshalVersionedTransaction(ver.Marshal())
+		if err != nil {
+			panic(err)
+		}
+		f.txs = append(f.txs, &c04Tx{name: "R", ver: dec, hash: dec.PayloadHash(), keys: []int{0}})
 	}
 	return f
 }
@@ -167,7 +193,8 @@ func c04Step(m *c04Model, tx *c04Tx, op int) (bool, bool) {
 func (f *c04Fix) keysOf(tx *c04Tx) []*crypto.Key {
 	var ks []*crypto.Key
 	for _, k := range tx.keys {
-		ks = append(ks, f.pool[k])
+		kc := *f.pool[k] // a copy: callers hand over freshly decoded keys, never shared pointers
+		ks = append(ks, &kc)
 	}
 	return ks
 }
@@ -295,7 +322,7 @@ func c04Linearizable(f *c04Fix, threads [][]*c04Call, final *c04Model) bool {
 func TestMC_C04(t *testing.T) {
 	c := verifmc.Start(t, "C04", "model_checking")
 	defer c.Finish()
-	c.SetRule("BFS over all histories of {Validate, LockGhostKeys(nofork), LockGhostKeys(fork), finalize} x 5 transactions whose output key sets over a pool of 3 real one-time keys are {k0},{k0,k1},{k1,k1},{k2},{k1}; reference = key -> first owner; plus every interleaving (bounded preemptions) of concurrent reservations checked for linearisability")
+	c.SetRule("BFS over all histories of {Validate, LockGhostKeys(nofork), LockGhostKeys(fork), finalize} x 6 wire-decoded transactions whose output key sets over a pool of 3 real one-time keys are {k0},{k0,k1},{k1,k1},{k2},{k1} (script outputs) and {k0} on a node-remove output; reference = key -> first owner; plus every interleaving (bounded preemptions) of concurrent reservations checked for linearisability")
 	c.Assume("generated transaction hashes are not one of the three hard-coded historical exceptions (asserted)", "Badger SSI; scheduling points at store mutex and txn begin/commit")
 	probe := c04Setup()
 	for _, tx := range probe.txs {
